@@ -13,6 +13,14 @@ CLAIMS = {
          "Not decided: that every proper prefix of every accepted v1 line reaches an incomplete outcome (depends on token contents). Trusted: std axioms.", "impl-table queries + " + TECH_SUM),
  "C06": ("proof", "HeaderResult::parse is summarised with both parsers as uninterpreted functions of the same input; its truth table over the v2 result's variant must equal the specified one; From impls and delegation checked by summary.", "5/C06",
          "Trusted: std axioms for Result/Option; the classification of v2 error variants is the oracle's (spec/tables.py).", TECH_SUM),
+ "C07": ("proof", "Code tables and BitOr impls from the type-checked program; wire layout of build via the builder transformers; parse-back decided by analysing the v2 parser on the reference wire bytes (24 control combinations, symbolic addresses and payload): single Ok outcome with identical command/transport/addresses/bytes, tlv_bytes = payload; TLV step mirror for the item sequence.", "5/C07",
+         "The TLV-list clause is the induction from the step mirror (C07.M) and C11.R. Trusted: std axioms (octets/new/from of Ipv4Addr/Ipv6Addr mutually inverse, be/to_be_bytes inverse).", TECH_SUM + "; parser summary evaluated on the encoder's reference output"),
+ "C09": ("proof", "build is summarised under every abstract builder pre-state x explicit length Some/None and compared with the reference (bytes 14..16 = explicit length read at build time, else measured size, Err over 65535); set_length frame; size-limited encoders refuse before writing; no truncating cast on builder paths. Transformer-level, hence for every history.", "5/C09",
+         "Trusted: std axioms (u16::try_from, copy_from_slice, index_mut ranges).", TECH_SUM),
+ "C10": ("proof", "Inductive invariant over the method transformers: every Ok outcome of write_payload/write_tlv/write_payloads has header = Some(PRE ++ enc(payload)), other fields framed; batch loop judged by the append-loop idiom (widening fixpoint, one write_to per next()); constructors and reserve_capacity compared with references.", "5/C10",
+         "Generic payloads use the WriteToHeader contract (writer := old ++ enc(x)) that C20.E establishes for every impl. Trusted: std axioms (Vec push/extend/reserve/with_capacity, Option::take).", TECH_SUM + "; loop widening + idiom rule; frame (who-may-write) checks"),
+ "C13": ("proof", "For each accepted control combination the generic accepted header is parsed by the parser summary, its views computed by the accessor summaries, and the fixed rebuild histories (raw views; decoded address value) composed from the builder transformers; every path must be Ok and normalise to the original bytes; item re-encoding equals the slice it was read from.", "5/C13",
+         "Trusted: std axioms. The 'decoded items' clause for whole sections is the induction over C11.R tiling + C13.I.", "composition of MIR value-flow summaries along a fixed call history, compared by sequence normalisation"),
  "C11": ("proof", "The loop-free Iterator::next step is compared with the reference TLV step (value and cursor update) on its four-way partition; ranking/typestate facts (error parks the cursor, item advances by >= 3 and stays inside) are entailed by the extracted guards; constructors and field frames checked.", "5/C11",
          "Trusted: std axioms (slice index/len, from_be_bytes). Induction over calls is the standard argument from the step relation (DESIGN.md C11.R).", TECH_SUM + "; who-may-write query on private fields"),
  "C12": ("other", "v2: single-corruption rows of the decision table resolve to the element's variant carrying the offending value, all terminal; decided for every byte string. v1: role attribution is structural only.", "5/C12",
